@@ -149,25 +149,24 @@ pre-allocation `8·min(count, stlMaxPrealloc)`; everything else grows with recor
 (72-byte triangles + amortised slice growth ≤ 16 per entry). -/
 def stlMaxPrealloc : Nat := 65536
 
+/-- triangle count declared by a binary header (0 for ASCII / unreadable headers) -/
+def stlDeclared (bs : Bytes) : Nat :=
+  if bs.isEmpty || stlIsAscii (bs.take 512) then 0
+  else match stlBinHeader bs with
+    | .ok (n, _) => n
+    | .error _ => 0
+
+/-- triangles actually materialised before the decoder returns -/
+def stlRead (bs : Bytes) : Nat :=
+  match stlDecode noParse32 bs with
+  | .ok rs => rs.length
+  | .error _ => bs.length / 50
+
 def stlLedger (bs : Bytes) : Nat :=
-  let fixed := 4096 + 512 + 80
-  let declared : Nat :=
-    if bs.isEmpty || stlIsAscii (bs.take 512) then 0
-    else match stlBinHeader bs with
-      | .ok (n, _) => n
-      | .error _ => 0
-  let read := match stlDecode noParse32 bs with
-    | .ok rs => rs.length
-    | .error _ => bs.length / 50
-  fixed + 8 * min declared stlMaxPrealloc + 88 * read
+  (4096 + 512 + 80) + 8 * min (stlDeclared bs) stlMaxPrealloc + 88 * stlRead bs
 
 /-- the ledger of the code **before** the repair: `make([]*Triangle, 0, NumTriangles())`. -/
 def stlLedgerUnrepaired (bs : Bytes) : Nat :=
-  let declared : Nat :=
-    if bs.isEmpty || stlIsAscii (bs.take 512) then 0
-    else match stlBinHeader bs with
-      | .ok (n, _) => n
-      | .error _ => 0
-  4096 + 512 + 80 + 8 * declared
+  (4096 + 512 + 80) + 8 * stlDeclared bs
 
 end M3d.Codec
